@@ -71,7 +71,8 @@ def gen(rng, tier, idx):
                'keep_open': rng.random() < 0.7, 'tmp_dir': rng.random() < 0.8,
                'chunks': [sorted([rng.randint(0, n), rng.randint(0, n)]) for _ in range(3)],
                'batches': [rng.sample(range(n), rng.randint(1, min(n, 400))) for _ in range(3)],
-               'odd_batches': [[], [0, 0], [n - 1, 0, n - 1]]}
+               'odd_batches': [[], [0, 0], [n - 1, 0, n - 1]],
+               'via_copy_layer': rng.random() < 0.4}
         # read - replace - read: the file at the same path is replaced (atomic rename) by another valid matrix while
         # the first iterator is still referenced, and a second iterator is opened on the path
         if rng.random() < 0.2:
@@ -132,6 +133,20 @@ def run_iter(scn, sb, res):
     viol = res['violations']
     pr = res['probes']
     fault = scn.get('fault')
+    layer_for_iter = m['layer'] or 'X'
+    if acc.get('via_copy_layer') and m['layer']:
+        # the layer is first moved to X by the repository's own helper (what validation does), keeping whatever HDF5
+        # chunk layout it had; the rows of the NEW file are what is read
+        from cell_type_mapper.utils.anndata_utils import copy_layer_to_x
+        moved = sb.p('in', 'm_layer_as_x.h5ad')
+        o_ = drivers.outcome_of(copy_layer_to_x, original_h5ad_path=path, new_h5ad_path=moved, layer=m['layer'])
+        if o_[0] != 'ok':
+            viol.append({'cls': 'copy-layer-raises', 'detail': o_[1][:300]})
+            res['evaluations'] = 1
+            return
+        path = moved
+        layer_for_iter = 'X'
+        pr['layer_moved_to_x_first'] = 1
     if fault and fault['kind'] == 'diskfull':
         KERNEL.statvfs_full = True
     if fault and fault['kind'] == 'parent_io':
@@ -142,7 +157,7 @@ def run_iter(scn, sb, res):
 
     def body():
         it = AnnDataRowIterator(h5ad_path=path, row_chunk_size=acc['row_chunk_size'],
-                                layer=m['layer'] or 'X', tmp_dir=sb.p('scratch') if acc['tmp_dir'] else None,
+                                layer=layer_for_iter, tmp_dir=sb.p('scratch') if acc['tmp_dir'] else None,
                                 max_gb=acc['max_gb'], keep_open=acc['keep_open'])
         bad = []
         if it.n_rows != n:
@@ -199,10 +214,11 @@ def run_iter(scn, sb, res):
             tmp2 = sb.p('in', 'm_new.h5ad')
             world.write_h5ad(tmp2, M2, ['d%d' % i for i in range(M2.shape[0])],
                              ['g%d' % i for i in range(M2.shape[1])], encoding=m['encoding'], dtype=m['dtype'],
-                             layer=m['layer'], chunks=tuple(m['h5_chunks']) if m['h5_chunks'] else None)
+                             layer=None if layer_for_iter == 'X' else m['layer'],
+                             chunks=tuple(m['h5_chunks']) if m['h5_chunks'] else None)
             os.replace(tmp2, path)
             it2 = AnnDataRowIterator(h5ad_path=path, row_chunk_size=acc['row_chunk_size'],
-                                     layer=m['layer'] or 'X', tmp_dir=sb.p('scratch') if acc['tmp_dir'] else None,
+                                     layer=layer_for_iter, tmp_dir=sb.p('scratch') if acc['tmp_dir'] else None,
                                      max_gb=acc['max_gb'], keep_open=acc['keep_open'])
             pr['read_replace_read'] = 1
             if it2.n_rows != M2.shape[0]:
